@@ -148,6 +148,8 @@ MUTANTS = [
     M('sema:accessor:stmts-truncated', 'sema', ['C06'], 'Program::stmts', '&self.stmts', '&self.stmts[0..0]'),
     M('sema:index:set-becomes-list', 'sema', ['C06'], 'index_operator_to_asg_type', 'asg::IndexOperator::SetExpression(set_expression_to_asg_type(set_expression, context))', 'asg::IndexOperator::ExpressionList(asg::ExpressionList::new(set_expression_to_asg_type(set_expression, context).expressions))'),
     M('sema:range:step-dropped', 'sema', ['C06'], 'range_expression_to_asg_type', 'asg::RangeExpression::new(start, step, stop)', 'asg::RangeExpression::new(start, None, stop)'),
+    M('sema:scalar_type:width-dropped-for-float', 'sema', ['C09'], 'scalar_type_to_type', 'synast::ScalarTypeKind::Float => Type::Float(width, isconst.into()),', 'synast::ScalarTypeKind::Float => Type::Float(None, isconst.into()),'),
+    M('sema:param_type:array-ref-as-scalar', 'sema', ['C09'], 'param_type_to_type', 'synast::ParamType::ArrayRefType(_) => return Type::ToDo,', 'synast::ParamType::ArrayRefType(_) => return Type::Void,'),
     # ---- PARSER marker discipline
     M('parser:marker:complete-wrong-slot', 'parser', ['C01', 'C02'], 'Marker::complete', 'let idx = self.pos as usize;', 'let idx = (self.pos as usize) + 1;'),
     M('parser:marker:abandon-always-pops', 'parser', ['C01', 'C02'], 'Marker::abandon', 'if idx == p.events.len() - 1 {', 'if idx <= p.events.len() - 1 {'),
